@@ -115,6 +115,18 @@ TABLE = [
     ("semicolon_statements", ["a = x; b = y; a += b", "return a"]),
     ("comment_only_branch", ["if x > 0:", "    pass  # nothing", "else:", "    x = -x", "return x"]),
     ("type_comment_ignored", ["a = x  # type: int", "return a"]),
+    # keyword arguments and `as` clauses in the call-like forms the front end treats specially (round-3 seeds / side observations)
+    ("comptime_keyword", ["return comptime(5, k=3) + x"]),
+    ("py_keyword", ["return py(5, k=3) + x"]),
+    ("walrus_in_comprehension_bound", ["t = 0", "xs = array((t := v + x) for v in range(3))", "return t + xs[0]"]),
+    # (names starting with exp_ are checked with the experimental features enabled: modifier blocks)
+    ("exp_with_modifier_keyword_dagger", ["q = qubit()", "with dagger(k=1):", "    h(q)", "discard(q)", "return x"]),
+    ("exp_with_modifier_keyword_control", ["q = qubit()", "c = qubit()", "with control(c, k=1):", "    h(q)", "discard(q)", "discard(c)", "return x"]),
+    ("exp_with_modifier_keyword_power", ["q = qubit()", "with power(2, k=1):", "    h(q)", "discard(q)", "return x"]),
+    ("exp_with_as_first_item", ["q = qubit()", "c = qubit()", "with control(c) as z:", "    h(q)", "discard(q)", "discard(c)", "return x"]),
+    ("exp_with_as_second_item", ["q = qubit()", "c = qubit()", "with dagger, control(c) as z:", "    h(q)", "discard(q)", "discard(c)", "return x"]),
+    ("exp_with_as_third_item", ["q = qubit()", "c = qubit()", "with dagger, power(2), control(c) as z:", "    h(q)", "discard(q)", "discard(c)", "return x"]),
+    ("exp_with_modifiers_plain", ["q = qubit()", "c = qubit()", "with dagger, control(c):", "    h(q)", "discard(q)", "discard(c)", "return x"]),
 ]
 
 
@@ -157,7 +169,8 @@ def twice(fn):
 ctx = _Ctx
 G = 0
 from guppylang.std.builtins import array, exit, result  # noqa: E402
-from guppylang.std.quantum import qubit, discard  # noqa: E402
+from guppylang.std.quantum import qubit, discard, h  # noqa: E402
+from guppylang.std.builtins import comptime, py  # noqa: E402
 '''
 
 
@@ -167,6 +180,10 @@ def silently_dropped_clause(src: str):
     for n in ast.walk(ast.parse(src)):
         if isinstance(n, ast.Call) and n.keywords:
             return "keyword argument `" + ast.unparse(n.keywords[0]) + "` in `" + ast.unparse(n) + "`"
+        if isinstance(n, ast.With):
+            for it in n.items:
+                if it.optional_vars is not None:        # (`with` is only kept for modifier blocks, which bind nothing)
+                    return "`as " + ast.unparse(it.optional_vars) + "` clause in `with " + ", ".join(ast.unparse(i) for i in n.items) + "`"
     return None
 
 
